@@ -14,10 +14,10 @@ EvaluateSim ==
     /\ LET n == Len(impls) IN
        \E seedrun \in Pick(IF AllowSeed THEN {FALSE, FALSE, TRUE} ELSE {FALSE}) :
        IF seedrun
-           THEN \E S \in Pick(SUBSET (1..n) \ {{}}), oc \in Pick(SeedOuts(n)) :
-                   ev' = EvalWith(0, oc, [i \in 1..n |-> "val"], S)
+           THEN \E S \in Pick(SUBSET (1..n) \ {{}}), oc \in Pick(SeedOuts(n)), arch \in Pick(BOOLEAN) :
+                   ev' = EvalWith(0, oc, [i \in 1..n |-> "val"], S, arch)
            ELSE \E a \in Pick(Ctx), oc \in Pick([1..n -> Outs]), hoc \in Pick(HOuts(n)) :
-                   ev' = EvalWith(a, oc, hoc, {})
+                   ev' = EvalWith(a, oc, hoc, {}, FALSE)
     /\ UNCHANGED <<impls, handlers, ignore, pointDeps>>
 
 RegisterSim ==
